@@ -1089,4 +1089,68 @@ theorem spellOK_singleChar {cs : CharSpec} {k : TK} {text : List Char} {next : O
     · simp only [spellOK, Bool.and_eq_true, beq_iff_eq, List.isEmpty_iff] at h
       exact ⟨c, by rw [h.1], h.2⟩
 
+theorem spellOK_fixed {cs : CharSpec} {text : List Char} {next : Option Char} :
+    (spellOK cs .metaStart text next = true → text = ['>', '>']) ∧
+    (spellOK cs .textStep text next = true → text = ['>'] ∧ next ≠ some '>') ∧
+    (spellOK cs .minus text next = true → text = ['-'] ∧ next ≠ some '-') := by
+  cases text with
+  | nil => simp [spellOK]
+  | cons c r =>
+    simp only [spellOK, Bool.and_eq_true, beq_iff_eq, List.isEmpty_iff, bne_iff_ne, ne_eq]
+    refine ⟨?_, ?_, ?_⟩
+    · rintro ⟨rfl, rfl⟩; rfl
+    · rintro ⟨⟨rfl, rfl⟩, h⟩; exact ⟨rfl, h⟩
+    · rintro ⟨⟨rfl, rfl⟩, h⟩; exact ⟨rfl, h⟩
+
+/-- Each token kind determines the shape of the token's text. -/
+def KindText (cs : CharSpec) (k : TK) (text : List Char) : Prop :=
+  (k = .int → text ≠ [] ∧ text.all isAsciiDigit = true ∧ (text.head? ≠ some '0' ∨ text.length = 1)) ∧
+  (k = .zeroInt → text.head? = some '0' ∧ text.length > 1 ∧ text.all isAsciiDigit = true) ∧
+  (k = .newline → text = ['\n'] ∨ text = ['\r', '\n']) ∧
+  (k = .escaped → text.head? = some '\\' ∧ (text.length = 1 ∨ text.length = 2)) ∧
+  (k = .lineComment → ['-', '-'] <+: text ∧ '\n' ∉ text) ∧
+  (k = .blockComment → ['[', '-'] <+: text ∧ blockScan (text.drop 2) = (text.drop 2).length) ∧
+  (k = .ws → text ≠ [] ∧ text.all cs.ws = true) ∧
+  (k = .word → text ≠ [] ∧ text.tail.all cs.wordChar = true ∧
+    ∀ c, text.head? = some c → cs.ws c = false ∧ cs.punct c = false ∧ isAsciiDigit c = false ∧ singleKind c = none) ∧
+  (k = .punct → ∃ c, text = [c] ∧ cs.punct c = true ∧ cs.ws c = false ∧ singleKind c = none) ∧
+  (k = .metaStart → text = ['>', '>']) ∧ (k = .textStep → text = ['>']) ∧ (k = .minus → text = ['-']) ∧
+  (k ∈ singleTable.map (·.2) → ∃ c, text = [c] ∧ singleKind c = some k)
+
+theorem spellOK_kindText {cs : CharSpec} {k : TK} {text : List Char} {next : Option Char}
+    (h : spellOK cs k text next = true) : KindText cs k text := by
+  refine ⟨?_, ?_, ?_, ?_, ?_, ?_, ?_, ?_, ?_, ?_, ?_, ?_, ?_⟩
+  · rintro rfl; exact spellOK_int h
+  · rintro rfl; exact spellOK_zeroInt h
+  · rintro rfl; exact spellOK_newline h
+  · rintro rfl
+    obtain ⟨h1, h2⟩ := spellOK_escaped h
+    exact ⟨h1, by rcases h2 with h2 | h2 <;> simp [h2]⟩
+  · rintro rfl; exact ⟨(spellOK_lineComment h).1, (spellOK_lineComment h).2.1⟩
+  · rintro rfl; exact ⟨(spellOK_blockComment h).1, (spellOK_blockComment h).2.2⟩
+  · rintro rfl; exact ⟨(spellOK_ws h).1, (spellOK_ws h).2.1⟩
+  · rintro rfl; exact ⟨(spellOK_word h).1, (spellOK_word h).2.1, (spellOK_word h).2.2.2⟩
+  · rintro rfl
+    obtain ⟨c, h1, h2, h3, h4, _⟩ := spellOK_punct h
+    exact ⟨c, h1, h2, h3, h4⟩
+  · rintro rfl; exact spellOK_fixed.1 h
+  · rintro rfl; exact (spellOK_fixed.2.1 h).1
+  · rintro rfl; exact (spellOK_fixed.2.2 h).1
+  · intro hk; exact spellOK_singleChar hk h
+
+theorem lexFrom_kindText (cs : CharSpec) (off : Nat) (s : List Char) :
+    ∀ t ∈ lexFrom cs off s, KindText cs t.kind t.text := by
+  intro t ht
+  obtain ⟨next, h⟩ := lexFrom_kind_text cs off s t ht
+  exact spellOK_kindText h
+
+/-- a small character table for examples: blank and tab are whitespace, a few punctuation
+    characters, ASCII letters and digits are word characters -/
+def toyCharSpec : CharSpec where
+  ws c := c = ' ' ∨ c = '\t'
+  punct c := c = ',' ∨ c = '!' ∨ c = '['
+  wordChar c := c.isAlphanum
+  uws c := c.isWhitespace
+  alnum c := c.isAlphanum
+
 end Cook
